@@ -38,6 +38,7 @@ func c13(c *core.Check) {
 	c13FreshColumnPositions(c)
 	c13GroupExtent(c)
 	c13GroupExtentInGrid(c)
+	c13SpacingAxis(c)
 
 	r3 := c.Rule("R3", "the table layout code mirrors its side-symmetric assignments, sums margins, paddings and borders with consistent sides, and passes its named arguments in order", 8)
 	tfiles := map[string]bool{"tables.go": true}
